@@ -2,6 +2,7 @@ import ReplicatProofs.Lemmas.SymBasic
 import ReplicatProofs.Lemmas.SymB64
 import ReplicatProofs.Lemmas.SymNames
 import ReplicatProofs.Properties.C01
+import ReplicatProofs.Lemmas.Inflight
 /-!
 # C14 — what replicat writes follows the documented repository format
 
@@ -156,6 +157,122 @@ file's references, in counter order, are the file's byte range of the padded str
 theorem records_tile (s : Bytes) (f : Span) (hf : f.1 ≤ f.2) (lens : List Nat) (hsum : lens.sum = s.length) (hfe : f.2 ≤ s.length) :
     ((planFrom 0 (fileRefs f 0 (spansFrom 0 lens))).map (partData (chunksOf s lens))).flatten = slice s f.1 f.2 :=
   C01.refs_tile s f hf lens hsum hfe
+
+/-! ## Files spanning several read blocks: `_chunk_done` while the producer is still reading
+
+`_stream_files` reads every file in blocks of `Gen.pieceSize` bytes and the chunker adapter looks ONE block ahead, so for a
+file of two or more blocks the chunks cut from its earlier blocks are uploaded and attributed (`_chunk_done`, event loop)
+while the producer thread has not read its later blocks yet.  `ReplicatModel/Inflight.lean` models what `state.files` holds at
+every moment of the producer (`stateAt align sizes t` = after `t` of its events: record appended / block read and counted /
+digest stored / padding yielded) and `recordsAt` runs every `_chunk_done` on the view of its own moment.  The theorems below say
+that this changes nothing that selects a byte — PROVIDED the record of the file being read is advanced inside the read loop
+before the block is handed to the chunker (`Gen.streamEndAdvancedInReadLoop`, regenerated from the source by
+`tools/sections/14_format.py`; every proof here discharges it by `decide`). -/
+
+/-- **The producer still has the shape the model mirrors**: `stream_end` of the record is advanced by `len(block)` inside the
+read loop before the block is yielded, the record starts empty at the stream position, blocks have a positive size, and the
+guards of `_chunk_done` / the padding expression were recognised. -/
+theorem producer_shape_recognised :
+    Gen.streamEndAdvancedInReadLoop = true ∧ 0 < Gen.pieceSize ∧ Gen.chunkDoneRecognised = true ∧ Gen.paddingRecognised = true := by
+  decide
+
+/-- **What `_chunk_done` can see at ANY moment of the producer**: the files started so far are a prefix of the final layout, each
+with its final start and with `stream_end` = the final end clipped to the bytes handed to the chunker so far (`viewOf`); every
+file not started yet begins at or after that position. -/
+theorem inflight_view (align : Nat) (sizes : List Nat) (t : Nat) :
+    ∃ k, (Inflight.stateAt align sizes t).files
+          = Inflight.viewOf (layout align sizes) k (Inflight.stateAt align sizes t).yielded ∧
+      ∀ f ∈ (layout align sizes).drop k, (Inflight.stateAt align sizes t).yielded ≤ f.1 :=
+  Inflight.stateAt_view (by decide) (by decide) align sizes t
+
+/-- … and when `_stream_files` is exhausted the records are exactly the layout `Layout.records` / C01 work with. -/
+theorem inflight_final (align : Nat) (sizes : List Nat) :
+    (Inflight.run (Inflight.events align Gen.pieceSize sizes)).files = layout align sizes := by
+  have := Inflight.runFrom_eventsFrom_files (by decide) align Gen.pieceSize (by decide) sizes none [] 0
+  simpa [Inflight.run, Inflight.events, layout, Inflight.padOf] using this
+
+/-- **Attribution does not depend on WHEN `_chunk_done` runs.**  For every list of file sizes (any number of read blocks per
+file), every chunking of the stream, every completion order of the upload workers and every schedule `when_` (chunk `j` is
+attributed after `when_ j` events of the producer) that is causal — a chunk is cut only from bytes already handed to the
+chunker —, the references of every file that select at least one byte are exactly those the final layout gives (same chunk,
+same range, same order).  Only zero-length references to a file that had not been started yet can be missing. -/
+theorem inflight_attribution (align : Nat) (sizes lens : List Nat) (order : List Nat) (when_ : Nat → Nat)
+    (hcausal : ∀ j ∈ order, ∀ c, (spansFrom 0 lens)[j]? = some c → c.2 ≤ (Inflight.stateAt align sizes (when_ j)).yielded)
+    (i : Nat) :
+    (refsOfIn (Inflight.recordsAt (fun j => (Inflight.stateAt align sizes (when_ j)).files) (spansFrom 0 lens) order) i).filter
+        Inflight.nonEmpty
+      = (refsOfIn (records (layout align sizes) (spansFrom 0 lens) order) i).filter Inflight.nonEmpty := by
+  apply Inflight.recordsAt_nonEmpty _ _ (layoutFrom_sorted align 0 sizes)
+  intro j hj
+  obtain ⟨k, hv, hdrop⟩ := inflight_view align sizes (when_ j)
+  refine ⟨k, _, hv, hdrop, ?_⟩
+  intro c hc
+  have := spansFrom_mem_bounds (List.mem_of_getElem? hc)
+  exact ⟨this.2.1, hcausal j hj c hc⟩
+
+/-- **The ranges recorded while files are in flight tile every file exactly.**  For every tree (files of any number of read
+blocks, empty files, any alignment), every chunking of the padded stream, every completion order and every causal schedule:
+the references recorded for file `i`, sorted by counter as `restore` does, select exactly the file's bytes. -/
+theorem inflight_records_tile (align : Nat) (files : List Bytes) (lens : List Nat)
+    (hsum : lens.sum = (streamOf align files).length) (order : List Nat) (horder : order.Perm (List.range lens.length))
+    (when_ : Nat → Nat)
+    (hcausal : ∀ j ∈ order, ∀ c, (spansFrom 0 lens)[j]? = some c →
+      c.2 ≤ (Inflight.stateAt align (files.map List.length) (when_ j)).yielded)
+    (i : Nat) (b : Bytes) (hb : files[i]? = some b) :
+    ((plan (refsOfIn (Inflight.recordsAt (fun j => (Inflight.stateAt align (files.map List.length) (when_ j)).files)
+        (spansFrom 0 lens) order) i)).map (partData (chunksOf (streamOf align files) lens))).flatten = b := by
+  have hi : i < files.length := by
+    rcases Nat.lt_or_ge i files.length with h | h
+    · exact h
+    · rw [List.getElem?_eq_none h] at hb; cases hb
+  have hlay : (layout align (files.map List.length)).length = files.length := by
+    unfold layout; rw [layoutFrom_length, List.length_map]
+  obtain ⟨f, hf⟩ : ∃ f, (layout align (files.map List.length))[i]? = some f := by
+    rw [List.getElem?_eq_getElem (by omega)]; exact ⟨_, rfl⟩
+  have hsorted := layoutFrom_sorted align 0 (files.map List.length)
+  have hfle : f.1 ≤ f.2 := hsorted.2 f (List.mem_of_getElem? hf)
+  obtain ⟨b', hb', hslice, hlen⟩ := streamOf_slice align files i f [] (by simpa [layout] using hf)
+  simp only [List.nil_append] at hslice hlen
+  have hbb : b' = b := by rw [hb] at hb'; exact (Option.some.inj hb').symm
+  subst hbb
+  have hperm := C01.records_perm (layout align (files.map List.length)) (spansFrom 0 lens) hsorted order
+    (by rw [spansFrom_length]; exact horder) i f hf
+  have hne := inflight_attribution align (files.map List.length) lens order when_ hcausal i
+  have hsort := Inflight.sort_filter_eq (fileRefs f 0 (spansFrom 0 lens)) _ (fileRefs_counters f 0 (spansFrom 0 lens)).1
+    (by rw [hne]; exact hperm.filter _)
+  unfold plan
+  rw [← Inflight.parts_filter_nonEmpty, hsort, Inflight.parts_filter_nonEmpty,
+    C01.refs_tile (streamOf align files) f hfle lens hsum hlen, hslice]
+
+/-- **Why the record must be advanced inside the read loop** (negation witness for a producer that does not): a 5-byte file
+and a file of 40 000 001 bytes (three read blocks); after the first block of the large file has been handed to the chunker
+(6 events) a chunk `[0, 1 000 000)` of the stream is attributed.  With the record left at `stream_end = stream_start` until the
+file has been read (here: never, no later assignment is modelled), `_chunk_done` gives the large file the EMPTY range `[8, 8)`
+of that chunk and the small one `[0, 0)`; the final layout — and the producer that advances the record — give `[8, 1 000 000)`
+and `[0, 5)`. -/
+theorem unadvanced_record_loses_ranges :
+    let evs := (Inflight.events 4 Gen.pieceSize [5, 40000001]).take 6
+    let stale := (evs.foldl (Inflight.stepWith false) ⟨[], 0⟩).files
+    (evs.foldl (Inflight.stepWith false) ⟨[], 0⟩).yielded = 16777224 ∧ stale = [(0, 0), (8, 8)] ∧
+    chunkDone stale 0 (0, 1000000) = [(1, ⟨1, 8, 8⟩), (0, ⟨1, 0, 0⟩)] ∧
+    chunkDone (Inflight.stateAt 4 [5, 40000001] 6).files 0 (0, 1000000) = [(1, ⟨1, 8, 1000000⟩), (0, ⟨1, 0, 5⟩)] ∧
+    chunkDone (layout 4 [5, 40000001]) 0 (0, 1000000) = [(1, ⟨1, 8, 1000000⟩), (0, ⟨1, 0, 5⟩)] := by
+  decide +kernel
+
+/-- non-vacuity: the same tree cut into four chunks, attributed as early as causality allows (after 6, 6, 7 and 8 events: the
+large file's record then ends at 16 777 224, 16 777 224, 33 554 440 and 40 000 009) by workers finishing out of order — the
+records are those of the final layout; the view after 6 events is not the layout. -/
+example :
+    let lens := [1000000, 9000000, 10000000, 20000009]
+    let whenOf : Nat → Nat := fun j => [6, 6, 7, 8].getD j 0
+    (Inflight.stateAt 4 [5, 40000001] 6).files = [(0, 5), (8, 16777224)] ∧
+    layout 4 [5, 40000001] = [(0, 5), (8, 40000009)] ∧
+    (List.range 4).all (fun j => decide (((spansFrom 0 lens).getD j (0, 0)).2 ≤ (Inflight.stateAt 4 [5, 40000001] (whenOf j)).yielded)) = true ∧
+    Inflight.recordsAt (fun j => (Inflight.stateAt 4 [5, 40000001] (whenOf j)).files) (spansFrom 0 lens) [1, 0, 3, 2]
+      = [(1, [⟨2, 0, 9000000⟩, ⟨1, 8, 1000000⟩, ⟨4, 0, 20000009⟩, ⟨3, 0, 10000000⟩]), (0, [⟨1, 0, 5⟩])] ∧
+    records (layout 4 [5, 40000001]) (spansFrom 0 lens) [1, 0, 3, 2]
+      = [(1, [⟨2, 0, 9000000⟩, ⟨1, 8, 1000000⟩, ⟨4, 0, 20000009⟩, ⟨3, 0, 10000000⟩]), (0, [⟨1, 0, 5⟩])] := by
+  decide +kernel
 
 /-! ## History level: what the readers return on the store a whole history produces
 
